@@ -40,6 +40,20 @@ IU = 'utils.iter_utils'
 def run(ctx: Ctx):
   for r in (r1, r2, r3, r4):
     ctx.guard(r)
+  ctx.include('R-C10-5', 'restoring replays the recorded shard chain over the'
+              ' unsharded source with the same configuration (R-C09-2); the'
+              ' recorded position counts exactly the elements consumed'
+              ' (R-C09-4); a range started at a restored position reads'
+              ' [i, stop) without skipping or repeating (R-C09-6, R-C12-4)',
+              _shared, min_instances=12)
+
+
+def _shared(sub):
+  from mlmverif.props import c09, c12
+  sub.guard(c09.r2)
+  sub.guard(c09.r4)
+  sub.guard(c09.r6)
+  sub.guard(c12.r4)
 
 
 def r1(ctx: Ctx):
